@@ -223,6 +223,10 @@ func classify(err error, own *execError) (string, string) {
 	return "unknown", s
 }
 
+// unsettledRounds counts rounds of this child whose probe never became free: after two of them the
+// remaining rounds poll for 0.5 s instead of 5 s (a leak was already witnessed twice).
+var unsettledRounds int
+
 func runRound(seed int64, round int) roundLog {
 	cfg, reqs := genRound(seed, round)
 	out := roundLog{Cfg: cfg, Reqs: reqs}
@@ -341,7 +345,8 @@ func runRound(seed int64, round int) roundLog {
 				break
 			}
 		}
-		if out.ProbePolls >= 5000 {
+		if out.ProbePolls >= 5000 || (unsettledRounds >= 2 && out.ProbePolls >= 500) {
+			unsettledRounds++
 			break
 		}
 		time.Sleep(time.Millisecond)
